@@ -294,6 +294,85 @@ static void own2_case(char **f, int nf) {
         htp_connp_destroy_all(cp);
         own_end(); own_flush();
         htp_config_destroy(cfg);
+    } else if (strcmp(fn, "urlenp") == 0) {
+        htp_cfg_t *cfg = own_cfg(0);
+        htp_connp_t *cp = htp_connp_create(cfg);
+        htp_tx_t *tx = htp_connp_tx_create(cp);
+        own_begin(k);
+        htp_urlenp_t *u = htp_urlenp_create(tx);
+        own_put(u == NULL);
+        htp_urlenp_destroy(u);
+        own_end(); own_flush();
+        htp_connp_destroy_all(cp);
+        htp_config_destroy(cfg);
+    } else if (strcmp(fn, "mpartp") == 0) {
+        /* args: initial size of the parts list (not used here: the library's constant), the boundary is NULL */
+        htp_cfg_t *cfg = own_cfg(0);
+        own_begin(k);
+        bstr *b = own_arg(1) ? NULL : bstr_dup_c("bnd");
+        htp_mpartp_t *m = htp_mpartp_create(cfg, b, 0);
+        if (m == NULL) bstr_free(b);
+        htp_mpartp_destroy(m);
+        own_put(b == NULL); own_put(m == NULL);
+        own_end(); own_flush();
+        htp_config_destroy(cfg);
+    } else if (strcmp(fn, "tx_full") == 0) {
+        /* args: the transaction is complete, table size, parts list size */
+        htp_cfg_t *cfg = own_cfg(0);
+        htp_connp_t *cp = htp_connp_create(cfg);
+        htp_tx_t *tx = htp_connp_tx_create(cp);
+        own_begin(k);
+        htp_urlenp_t *uq = tx->request_urlenp_query = htp_urlenp_create(tx);
+        htp_urlenp_t *ub = tx->request_urlenp_body = htp_urlenp_create(tx);
+        bstr *b = bstr_dup_c("bnd");
+        htp_mpartp_t *mp = tx->request_mpartp = htp_mpartp_create(cfg, b, 0);
+        if (mp == NULL) bstr_free(b);
+        own_put(uq == NULL); own_put(ub == NULL); own_put(b == NULL); own_put(mp == NULL);
+        if (own_arg(0)) { tx->request_progress = HTP_REQUEST_COMPLETE; tx->response_progress = HTP_RESPONSE_COMPLETE; }
+        htp_status_t rc = htp_tx_destroy(tx);
+        own_put(rc == HTP_OK);
+        if (rc != HTP_OK) {
+            htp_urlenp_destroy(uq); htp_urlenp_destroy(ub); htp_mpartp_destroy(mp);
+            tx->request_urlenp_query = NULL; tx->request_urlenp_body = NULL; tx->request_mpartp = NULL;
+        }
+        htp_connp_destroy_all(cp);
+        own_end(); own_flush();
+        htp_config_destroy(cfg);
+    } else if (strcmp(fn, "res_line") == 0) {
+        /* args: parts of the response line (0..3) */
+        static const char *lines[] = { "   ", " HTTP/1.1  ", "HTTP/1.1 200", "HTTP/1.1 200  OK and more " };
+        htp_cfg_t *cfg = own_cfg(0);
+        htp_connp_t *cp = htp_connp_create(cfg);
+        htp_tx_t *tx = htp_connp_tx_create(cp);
+        cp->out_tx = tx;
+        tx->response_line = bstr_dup_c(lines[own_arg(0) > 3 ? 3 : own_arg(0)]);
+        own_begin(k);
+        htp_status_t rc = htp_parse_response_line_generic(cp);
+        own_put(rc == HTP_OK); own_put(tx->response_protocol == NULL); own_put(tx->response_status == NULL); own_put(tx->response_message == NULL);
+        htp_connp_destroy_all(cp);
+        own_end(); own_flush();
+        htp_config_destroy(cfg);
+    } else if (strcmp(fn, "req_line") == 0) {
+        /* args: log on; leading whitespace, bad delimiter after the method, method only, unknown method, bad delimiter in the
+           URI, no protocol, invalid protocol */
+        char line[128];
+        size_t n = 0;
+        n += snprintf(line + n, sizeof line - n, "%s%s", own_arg(1) ? "  " : "", own_arg(4) ? "FROB" : "GET");
+        if (own_arg(3)) n += snprintf(line + n, sizeof line - n, "%s", own_arg(2) ? "\t" : "");
+        else {
+            n += snprintf(line + n, sizeof line - n, "%s/index%s", own_arg(2) ? " \t " : " ", own_arg(5) ? "\tx.html" : ".html");
+            if (!own_arg(6)) n += snprintf(line + n, sizeof line - n, " %s", own_arg(7) ? "JUNK/9" : "HTTP/1.1");
+        }
+        htp_cfg_t *cfg = own_cfg(own_arg(0));
+        htp_connp_t *cp = htp_connp_create(cfg);
+        htp_tx_t *tx = htp_connp_tx_create(cp);
+        tx->request_line = bstr_dup_mem(line, n);
+        own_begin(k);
+        htp_status_t rc = htp_parse_request_line_generic_ex(cp, 0);
+        own_put(rc == HTP_OK); own_put(tx->request_method == NULL); own_put(tx->request_uri == NULL); own_put(tx->request_protocol == NULL);
+        htp_connp_destroy_all(cp);
+        own_end(); own_flush();
+        htp_config_destroy(cfg);
     } else {
         printf("?unknown-function %s", fn);
     }
@@ -320,6 +399,15 @@ int main(int argc, char **argv) {
         fclose(in);
         return 0;
     }
-    fprintf(stderr, "usage: own2_driver trace <casefile>\n");
+    if (argc >= 2 && strcmp(argv[1], "consts") == 0) {
+        /* the library's sizes the model takes as arguments: table size of the urlencoded parser, size of the parts list */
+        htp_cfg_t *cfg = htp_config_create();
+        htp_mpartp_t *m = htp_mpartp_create(cfg, bstr_dup_c("b"), 0);
+        printf("%d %d\n", (int) HTP_URLENP_DEFAULT_PARAMS_SIZE, m != NULL ? (int) ((htp_list_array_t *) m->multipart.parts)->max_size : -1);
+        htp_mpartp_destroy(m);
+        htp_config_destroy(cfg);
+        return 0;
+    }
+    fprintf(stderr, "usage: own2_driver trace <casefile> | consts\n");
     return 2;
 }
